@@ -94,6 +94,12 @@ def op_ws(es):
 
 def pos(rng, w, h, cur=None):
     r = rng.random()
+    if (w > 90 or h > 90) and r < 0.5:
+        # coordinates whose 1-based decimal form has interior / trailing zeros or one more digit than its neighbour
+        def pick(n):
+            c = [v for v in (8, 9, 10, 98, 99, 100, 101, 104, 109, 199, 200, 999, 1000, 1001, 1009, 1099, 9999, 10000, 10008, 99999, 100000) if v < n]
+            return rng.choice(c + [n - 1])
+        return (pick(w), pick(h))
     if cur is not None and r < 0.25:
         return (cur[0], rng.randrange(h))          # same column
     if cur is not None and r < 0.5:
@@ -117,7 +123,8 @@ def history(rng, nops, blink=True, graphic=True, sized=True, ops_weights=None, b
     if behbits is None:
         # bits 0-4: the five flags the library consults; bits 5-11: the seven it declares but ignores (non-default values)
         behbits = rng.randrange(32) | (rng.choice([0, 0, 0, 1 << rng.randrange(7), rng.randrange(128)]) << 5)
-    w, h = rng.choice([(1, 1), (2, 2), (3, 2), (4, 3), (5, 5), (10, 4), (40, 12), (80, 24), (250, 2), (3, 120), (rng.randrange(1, 41), rng.randrange(1, 13))])
+    w, h = rng.choice([(1, 1), (2, 2), (3, 2), (4, 3), (5, 5), (10, 4), (40, 12), (80, 24), (250, 2), (3, 120), (rng.randrange(1, 41), rng.randrange(1, 13)),
+                       (1205, 1102), (100003, 10021), (1012, 3), (5, 20004)])
     parts = ["T %d" % behbits]
     if sized:
         parts.append("sz %d %d" % (w, h))
@@ -139,7 +146,7 @@ def history(rng, nops, blink=True, graphic=True, sized=True, ops_weights=None, b
             s = ("we " if o == "we" or prev is None else "re ") + fmt_el(e)
         elif o == "ws":
             es = []
-            for _ in range(rng.choice([0, 1, 2, 3, 5, max(1, w - 1), w, w + 1, rng.choice([w + 1, 90, 300])])):
+            for _ in range(min(300, rng.choice([0, 1, 2, 3, 5, max(1, w - 1), w, w + 1, rng.choice([w + 1, 90, 300])]))):
                 e = element(rng, prev, blink, graphic)
                 prev = e
                 es.append(e)
